@@ -80,14 +80,15 @@ def regen():
     import importlib
     import py2coq
     importlib.reload(py2coq)
-    errors, changed = [], []
+    errors, changed = {}, []
     for fname, gen in py2coq.GENERATORS.items():
         path = f"{COQ}/Gen/{fname}"
         try:
             text, errs = gen(REPO)
-            errors += [f"{fname}: {e}" for e in errs]
+            if errs:
+                errors.setdefault(fname, []).extend(str(e) for e in errs)
         except Exception as e:  # fail closed: the file is replaced by one that cannot satisfy its dependants
-            errors.append(f"{fname}: {type(e).__name__}: {e}")
+            errors.setdefault(fname, []).append(f"{type(e).__name__}: {e}")
             text = f"(* GENERATION FAILED: {type(e).__name__}: {str(e)[:300].replace('*)', '* )')} *)\n"
         if write_if_changed(path, text):
             changed.append(fname)
@@ -199,8 +200,12 @@ class Run:
         """steps 1-3: regenerate, build the cone of Props/<id>.v, scrape Print Assumptions, hygiene"""
         with Lock():
             errs, changed = regen()
-            for e in errs:
-                self.red.append("translator: " + e)
+            cone0 = cone_of(props_file)
+            for fname, es in errs.items():
+                if f"Gen/{fname}" in cone0 or fname.startswith("BROKEN_"):
+                    for e in es:
+                        self.red.append(f"translator: {fname}: {e}")
+            changed = [c for c in changed if f"Gen/{c}" in cone0]
             if changed:
                 self.notes.append("Gen files rewritten from /repo: " + ", ".join(changed))
             vo = props_file[:-2] + ".vo"
